@@ -105,6 +105,12 @@ def run(repo, rep):
         rep.check(not analyse(api), "C07-a", f"{ENC}:{api}", f"the C entry point {api} validates the range itself in the shipped build", f"{needs.get(api + '#why')}")
     rep.floor("C07-a", 5)
     rule_list_range_check(repo, rep, mod)
+    rep.clause("C07-o", "the direct (non-palette) code of every in-range weight -255..255 is in the inverse table (create_inverse_palette executed on the clang AST)")
+    rule_inverse_palette(repo, rep, enc)
+    rep.clause("C07-p", "qsort comparators decide by comparison: no 64-bit difference narrowed to the int result")
+    rule_qsort_comparators(repo, rep, [enc, dec, mod])
+    rep.clause("C07-q", "the encoder's negative error code reaches the wrapper that turns it into ValueError: mlw_reorder_encode returns mlw_encode's value unchanged")
+    rule_error_code_forwarded(repo, rep, enc, mod)
     rule_subkernel_padding(repo, rep, enc)
     rule_zdiv_search_space(repo, rep, enc, dec)
     rep.clause("C07-k", "get_brick_weight: stride arithmetic on the caller's (possibly flipped, negative-stride) view stays signed or pointer-wide")
@@ -765,3 +771,101 @@ def rule_zdiv_search_space(repo, rep, enc, dec):
     rep.check(ok, "C07-d", f"{ENC}:search_grc_params", f"the {n_cfg} zero-run configurations searched select ZDIV values below {bound}, the ones the format defines",
               f"searched entries {sel} of z_grc_params {tab}: ZDIV {[v & 15 for v in sel if (v & 15) >= bound]} is reserved (legal: 0..{bound - 1}, 6 = disabled, 7 = end of stream); "
               "emitted for streams with more than about 96 % zeros; the NDEBUG decoder round-trips it, a strict one rejects the slice header")
+
+
+def rule_inverse_palette(repo, rep, enc):
+    """(o) create_inverse_palette is executed (c_exec over the clang AST: loops, locals, array stores) for an empty palette and for a palette
+    of three entries: afterwards inv_lut[w + 256] is the direct code `2|w| + (w < 0) + palsize - direct_offset` for every weight -255..255
+    that is not in the palette, and the palette position for those that are (judged by what the index decodes to: 0 has two codes)."""
+    from ..cast import CEvalError, c_exec
+
+    site = f"{ENC}:create_inverse_palette"
+    if "create_inverse_palette" not in enc.functions:
+        raise AnalysisError("mlw_encode.c: create_inverse_palette not found")
+    body = enc.body("create_inverse_palette")
+    wrong = None
+    pts = 0
+    for palsize, lut, direct_offset in ((0, [], 0), (3, [0, 10, 511], 0), (2, [1, 2], 1)):
+        env = {"palsize": palsize, "direct_offset": direct_offset, "inv_lut": [-1] * 512, "lut": lut + [0] * (32 - len(lut))}
+        try:
+            c_exec(body, env, enc)
+        except CEvalError as ex:
+            raise AnalysisError(f"create_inverse_palette not executable: {ex}")
+        for w in range(-255, 256):
+            # what the decoder makes of the stored index: a palette position, or a direct code (sign in bit 0, magnitude above)
+            idx = env["inv_lut"][w + 256]
+            code = (lut[idx] if 0 <= idx < palsize else idx - palsize + direct_offset) if isinstance(idx, int) else None
+            back = None if code is None or code < 0 else (-(code >> 1) if code & 1 else code >> 1)
+            in_pal = [i for i in range(palsize) if (-(lut[i] >> 1) if lut[i] & 1 else lut[i] >> 1) == w]
+            pts += 1
+            if (back != w or (in_pal and idx not in in_pal)) and wrong is None:
+                wrong = (palsize, w, idx, in_pal[0] if in_pal else f"an index that decodes to {w}")
+    rep.check(wrong is None, "C07-o", site, f"inv_lut[w + 256] holds the stream index of every weight -255..255 ({pts} points, three palettes)",
+              (f"palette of {wrong[0]}: weight {wrong[1]} maps to index {wrong[2]}, the stream format wants {wrong[3]}: a directly coded {wrong[1]} is written as another weight") if wrong else "")
+
+
+def rule_qsort_comparators(repo, rep, cus):
+    """(p) a function handed to qsort returns the sign of a comparison. `return (int)(b - a)` on 64-bit keys keeps the low 32 bits of the
+    difference: once two keys differ by 2^31 or more (palette frequencies are count << 16 | value: counts 32768 apart) the order is wrong."""
+    wide = ("long", "unsigned long", "uint64_t", "int64_t", "long long", "unsigned long long", "size_t", "ptrdiff_t")
+    n = 0
+    for cu in cus:
+        comps = set()
+        for fname in cu.functions:
+            try:
+                body = cu.body(fname)
+            except StopIteration:
+                continue
+            for cn, call in cu.calls(body):
+                if cn == "qsort" and len(call.get("inner", [])) == 5:
+                    for x in cu.walk(call["inner"][4]):
+                        if x.get("kind") == "DeclRefExpr" and x.get("referencedDecl", {}).get("kind") == "FunctionDecl":
+                            comps.add(x["referencedDecl"]["name"])
+        for c in sorted(comps):
+            if c not in cu.functions:
+                continue
+            n += 1
+            bad = []
+            for r in cu.walk(cu.body(c)):
+                if r.get("kind") != "ReturnStmt":
+                    continue
+                for x in cu.walk(r):
+                    if x.get("kind") == "BinaryOperator" and x.get("opcode") in ("-", "+") and ((x.get("type") or {}).get("qualType") or "").replace("const ", "").strip() in wide:
+                        bad.append(cu.text(r).strip())
+            rep.check(not bad, "C07-p", f"ethosu/mlw_codec/{cu.rel.split('/')[-1]}:{c}", f"comparator `{c}` returns comparison results",
+                      f"`{bad[0] if bad else ''}`: a 64-bit difference is narrowed to int: keys 2^31 apart (a weight value occurring 32768 times more often than another) sort the wrong way, "
+                      "the most frequent value drops out of the palette while only_palette stays set")
+    if n < 1:
+        raise AnalysisError("mlw_codec: no qsort comparator found")
+
+
+def rule_error_code_forwarded(repo, rep, enc, mod):
+    """(q) error discipline: mlw_encode returns -1 for a weight outside -255..255; method_reorder_encode raises ValueError for a negative
+    length. In between, mlw_reorder_encode must return the variable that took mlw_encode's result as it is (no clamp, no abs, no max)."""
+    site = f"{ENC}:mlw_reorder_encode"
+    body = enc.body("mlw_reorder_encode")
+    took = set()
+    for x in enc.walk(body):
+        if x.get("kind") == "BinaryOperator" and x.get("opcode") == "=" and x["inner"][0].get("kind") == "DeclRefExpr" and any(cn == "mlw_encode" for cn, _ in enc.calls(x["inner"][1])):
+            took.add(x["inner"][0]["referencedDecl"]["name"])
+        if x.get("kind") == "VarDecl" and any(cn == "mlw_encode" for cn, _ in enc.calls(x)):
+            took.add(x.get("name"))
+    if not took:
+        raise AnalysisError("mlw_reorder_encode: no variable takes the result of mlw_encode")
+    rets = [r for r in enc.walk(body) if r.get("kind") == "ReturnStmt" and r.get("inner")]
+    n = 0
+    for r in rets:
+        e = r["inner"][0]
+        names = [y.get("referencedDecl", {}).get("name") for y in enc.walk(e) if y.get("kind") == "DeclRefExpr"]
+        if not any(nm in took for nm in names):
+            continue
+        n += 1
+        core = e
+        while core.get("kind") in ("ImplicitCastExpr", "ParenExpr"):
+            core = core["inner"][-1]
+        rep.check(core.get("kind") == "DeclRefExpr", "C07-q", site, f"`{enc.text(r).strip()}` returns the encoder's result unchanged",
+                  f"`{enc.text(r).strip()}`: the error value -1 of mlw_encode (a weight outside -255..255) no longer reaches `if (output_length < 0)` in the wrapper: an empty stream instead of ValueError")
+    wrapper = [x for x in mod.walk(mod.body("method_reorder_encode")) if x.get("kind") == "IfStmt" and "output_length" in mod.text(x["inner"][0]) and "<" in mod.text(x["inner"][0])]
+    rep.check(bool(wrapper), "C07-q", f"{MOD}:method_reorder_encode", "the wrapper tests the returned length for a negative value", "no `output_length < 0` test in the wrapper")
+    if n < 1:
+        raise AnalysisError("mlw_reorder_encode: no return statement carries the encoder's result")
